@@ -1413,7 +1413,7 @@ def tangent(obj, params, **kwargs):
         else:
             return ops.tangent_curve_single(obj, params, normalize)
     if isinstance(obj, abstract.Surface):
-        if isinstance(params[0], float):
+        if isinstance(params[0], (int, float)):
             return ops.tangent_surface_single(obj, params, normalize)
         else:
             return ops.tangent_surface_single_list(obj, params, normalize)
@@ -1437,7 +1437,7 @@ def normal(obj, params, **kwargs):
     if isinstance(obj, abstract.Curve):
         raise GeomdlException("Not implemented for curves")
     if isinstance(obj, abstract.Surface):
-        if isinstance(params[0], float):
+        if isinstance(params[0], (int, float)):
             return ops.normal_surface_single(obj, params, normalize)
         else:
             return ops.normal_surface_single_list(obj, params, normalize)
